@@ -1,6 +1,11 @@
 HOOK_COMMITS = []
 NOT_APPLICABLE = {}
 TEXTS = {
+ "C19": {
+  "technique": "property-based testing (rapid): generated collections with TTL and other indexes and documents on both sides of every cutoff; expected deleted set computed from the definition",
+  "level_text": "Generated search over collections, TTL index combinations and documents placed on both sides of every cutoff (with safety margins) and of every non-date type, against an oracle that computes the expired set directly from the property's definition and checks survivors byte-for-byte, delete events one-to-one, no-op passes and aborted passes changing nothing, and index coherence. Sampling, not proof.",
+  "level_note": "Real-time expiry is exercised through an explicit pass identical to the background loop's; partial TTL indexes are not generated.",
+ },
  "C06": {
   "technique": "stateful property-based testing (rapid): generated histories on a file store with close/reopen steps; round-trip oracle on the complete exported state plus behavioural probes",
   "level_text": "Round-trip oracle over generated API histories on the single-file store with the widest value and index-option generators: at every generated close/reopen the complete exported state must be identical, reloading must be idempotent, the reloaded indexes coherent, and identical probe writes / a TTL pass must behave identically on the pre-close and the reloaded state. Sampling, not proof.",
